@@ -229,7 +229,8 @@ class lifted:
         sc = self.sc
         P.install(
             _lift_modules(sc.modules),
-            float_shim=_lift_modules(sc.float_shim),
+            # every lifted mxlpy module gets the float shim: `float(norm)` or `isinstance(v, float)` may appear anywhere after a refactor
+            float_shim=_lift_modules(list(dict.fromkeys([*sc.float_shim, *[m_ for m_ in sc.modules if str(m_).startswith("mxlpy")]]))),
             isinstance_shim=_lift_modules(sc.isinstance_shim),
             extra=sc.extra_install(),
         )
